@@ -31,8 +31,39 @@ def load_profile(prop):
     return importlib.import_module('tdmssim.profiles.%s' % prop.lower())
 
 
+def _library_frames(tb):
+    """(innermost nptdms frame description, True if the exception was raised in or below library code)"""
+    repo = os.path.realpath(os.environ.get('VERIF_REPO', '/repo'))
+    last_lib = None
+    last_harness = None
+    depth = 0
+    while tb is not None:
+        fn = os.path.realpath(tb.tb_frame.f_code.co_filename)
+        depth += 1
+        if fn.startswith(os.path.join(repo, 'nptdms')):
+            last_lib = (depth, '%s:%d %s' % (os.path.relpath(fn, repo), tb.tb_lineno, tb.tb_frame.f_code.co_name))
+        elif fn.startswith(VERIF_DIR):
+            last_harness = depth
+        tb = tb.tb_next
+    return last_lib, (last_lib is not None and (last_harness is None or last_lib[0] > last_harness))
+
+
 def _exec_checked(profile, case, known):
-    res = profile.execute(case)
+    try:
+        res = profile.execute(case)
+    except Exception as exc:
+        # an exception that escapes from library code through a harness path that does not expect one is the
+        # library misbehaving (on the unchanged tree no check raises), not a harness error
+        lib_frame, from_lib = _library_frames(exc.__traceback__)
+        if not from_lib:
+            raise
+        from .core import Result
+        from .compare import V
+        res = Result()
+        res.sig = ['library-raised', type(exc).__name__]
+        res.violations.append(V('%s.library-raised' % profile.PROP, 'unexpected %s from %s: %s' % (
+            type(exc).__name__, lib_frame[1], exc), exc=type(exc).__name__))
+        res.ev('library-raised', type(exc).__name__, lib_frame[1])
     bad, kn = findings_mod.split(known, res.violations)
     res.violations = bad
     res.known += kn
@@ -40,7 +71,7 @@ def _exec_checked(profile, case, known):
 
 
 def run_batch(args):
-    prop, tier, base_seed, start, count, world_timeout = args
+    prop, tier, base_seed, start, count, world_timeout, deadline = args
     profile = load_profile(prop)
     known = findings_mod.load(prop)
     agg = {'start': start, 'n': 0, 'sigs': set(), 'nontrivial_sigs': set(), 'probes': {}, 'faults': {},
@@ -48,6 +79,8 @@ def run_batch(args):
            'known': {}, 'violation': None, 'samples': [], 'digests': [], 'gen_s': 0.0, 'exec_s': 0.0,
            'first_seed': None, 'last_seed': None}
     for run in range(start, start + count):
+        if time.time() > deadline:
+            break         # wall budget reached: the batch is reported as far as it got (the explored set stays a prefix)
         seed = world_seed(base_seed, prop, tier, run)
         if agg['first_seed'] is None:
             agg['first_seed'] = seed
@@ -110,7 +143,7 @@ def replay(prop, path, quiet=False):
     with open(path) as f:
         doc = json.load(f)
     case = from_jsonable(doc['case'])
-    res = profile.execute(case)
+    res = _exec_checked(profile, case, [])
     tags = [v.tag for v in res.violations]
     if not quiet:
         for v in res.violations:
@@ -184,7 +217,8 @@ def main(argv=None):
         base_seed, prop, tier, n, budget, a.workers, os.environ.get('VERIF_REPO', '/repo')))
     for line in known_finding_lines(prop):
         print(line)
-    tasks = [(prop, tier, base_seed, s, min(batch, n - s), world_timeout) for s in range(0, n, batch)]
+    deadline = t0 + budget
+    tasks = [(prop, tier, base_seed, s, min(batch, n - s), world_timeout, deadline) for s in range(0, n, batch)]
     results = {}
     harness_error = None
     stopped_early = False
@@ -218,6 +252,8 @@ def main(argv=None):
                         done_submitting = True
                         continue
                     results[r['start']] = r
+                    if r['n'] < t[4] and not r['violation']:
+                        stopped_early = True
                     if r['violation']:
                         found = True
                 if found or harness_error:
